@@ -39,8 +39,15 @@ impl Graph {
                 let occ = names.iter().filter(|n| n.starts_with(&format!("q{j}_"))).count();
                 names.push(format!("q{j}_{occ}"));
             }
+            // `use` statements may stand anywhere at top level: some (by spelling variant) come after the declarations
+            let mut late = String::new();
             for (k, (j, v)) in self.edges[i].iter().enumerate() {
-                t.push_str(&format!("use \"{}\" as {};\n", Self::spelled(*j, *v), names[k]));
+                let line = format!("use \"{}\" as {};\n", Self::spelled(*j, *v), names[k]);
+                if (*v as usize + k + i) % 3 == 2 {
+                    late.push_str(&line);
+                } else {
+                    t.push_str(&line);
+                }
             }
             t.push_str(&format!("let v = {{ 'k{i} num"));
             for q in &names {
@@ -51,6 +58,7 @@ impl Graph {
             for q in &names {
                 t.push_str(&format!("let g_{q} = {q}.f v;\n"));
             }
+            t.push_str(&late);
             if i == 0 {
                 t.push_str("res / on get -> v;\n");
             }
